@@ -139,7 +139,9 @@ func checkC01(c *chk.Ctx) {
 				&abs.Field{Name: "q", Num: 2, Kind: cc.Kind, Card: "one", Rules: abs.NoRules(), Ann: abs.Ann{Query: true}},
 				&abs.Field{Name: "rq", Num: 3, Kind: cc.Kind, Card: "one", Rules: abs.NoRules(), Ann: abs.Ann{Query: true, QueryReq: true}},
 				&abs.Field{Name: "rep", Num: 6, Kind: "string", Card: "rep", Rules: abs.NoRules(), Ann: abs.Ann{Query: true}},
-				&abs.Field{Name: "oq", Num: 7, Kind: "int32", Card: "opt", Rules: abs.NoRules(), Ann: abs.Ann{Query: true}})
+				&abs.Field{Name: "oq", Num: 7, Kind: "int32", Card: "opt", Rules: abs.NoRules(), Ann: abs.Ann{Query: true}},
+				&abs.Field{Name: "rrep", Num: 8, Kind: "string", Card: "rep", Rules: abs.NoRules(), Ann: abs.Ann{Query: true, QueryReq: true}},
+				&abs.Field{Name: "ropt", Num: 9, Kind: "int32", Card: "opt", Rules: abs.NoRules(), Ann: abs.Ann{Query: true, QueryReq: true}})
 		}
 		if bodyVerb(cc.Verb) {
 			b := &abs.Field{Name: "b", Num: 4, Kind: "string", Card: "one", Rules: abs.NoRules()}
@@ -257,6 +259,11 @@ func checkC01(c *chk.Ctx) {
 				l.Append(protoreflect.ValueOfString("r 2,x&y"))
 				m.Set(fds.ByName("oq"), protoreflect.ValueOfInt32(map[bool]int32{false: 7, true: 0}[cc.Qcls == "max"])) // max: set to 0, presence counts
 			}
+			// required parameters are always supplied (an absent one is the server's 400, not a call)
+			rl := m.Mutable(fds.ByName("rrep")).List()
+			rl.Append(protoreflect.ValueOfString("red"))
+			rl.Append(protoreflect.ValueOfString("a&b=c d"))
+			m.Set(fds.ByName("ropt"), protoreflect.ValueOfInt32(map[bool]int32{false: 12, true: 0}[cc.Qcls == "zero"]))
 		}
 		if bodyVerb(cc.Verb) && ok {
 			fd := fds.ByName("b")
@@ -335,9 +342,10 @@ func checkC01(c *chk.Ctx) {
 			}
 			return out
 		}
-		fields := []string{"p", "q", "rq", "rep", "oq"}
+		fields := []string{"p", "q", "rq", "rep", "oq", "rrep", "ropt"}
 		pathVars, query := []string{"p"}, []map[string]any{{"field": "q", "name": "q", "required": false}, {"field": "rq", "name": "rq", "required": true},
-			{"field": "rep", "name": "rep", "required": false}, {"field": "oq", "name": "oq", "required": false}}
+			{"field": "rep", "name": "rep", "required": false}, {"field": "oq", "name": "oq", "required": false},
+			{"field": "rrep", "name": "rrep", "required": true}, {"field": "ropt", "name": "ropt", "required": true}}
 		if p.cc.Route == "default" {
 			fields, pathVars, query = []string{}, []string{}, []map[string]any{}
 		}
@@ -385,7 +393,7 @@ func checkC01(c *chk.Ctx) {
 				}
 				queryVals := []map[string]string{}
 				q, _ := url.ParseQuery(fmt.Sprint(e["rawQuery"]))
-				for _, n := range []string{"q", "rq", "rep", "oq"} {
+				for _, n := range []string{"q", "rq", "rep", "oq", "rrep", "ropt"} {
 					if p.cc.Route == "default" {
 						break
 					}
